@@ -189,6 +189,33 @@ def check_C14(o, tier):
                n_quick=250, n_thorough=8000)
 
 
-CHECKS = {"C10": check_C10, "C14": check_C14, "C01": check_C01, "C02": check_C02, "C03": check_C03, "C04": check_C04, "C07": check_C07, "C08": check_C08,
+def extra_gc(prop):
+    """HTTP-level collection profile: object graphs through the API, ages by hook, GC at any point, every policy cell;
+    the Upd.gcRepo model against the real repoGarbageCollect on the three stores, monitors C05.* / C06.*"""
+    def run(o, tier):
+        http_check(o, tier, prop, ["gc"], make_view(fields=("code", "dcd", "body")), o.cov.get("rule", "") + " | " + RULE % "gc (HTTP level)",
+                   monitors_prefix=prop + ".", n_quick=150, n_thorough=5000)
+    return run
+
+
+try:
+    from . import p_gc as _p_gc
+    _p_gc.EXTRA_C05.append(extra_gc("C05"))
+    _p_gc.EXTRA_C06.append(extra_gc("C06"))
+except Exception as _e:  # the collector module is optional for the HTTP-level checks
+    core.log("p_gc not hooked: %r" % (_e,))
+
+
+def check_C19(o, tier):
+    """C19 = the configuration check (flags, defaults, limiter, lifecycle: vlib/p_config.py) plus the HTTP-level switches profile
+    against the Upd model on the three stores (every field of every answer, so a switch with an effect other than its own shows)"""
+    from . import p_config
+    p_config.CHECKS["C19"](o, tier)
+    rule = o.cov.get("rule", "")
+    http_check(o, tier, "C19", ["switches"], None, rule + " | " + RULE % "switches (HTTP level, all answer fields)", monitors_prefix="C19.",
+               n_quick=200, n_thorough=6000)
+
+
+CHECKS = {"C19": check_C19, "C10": check_C10, "C14": check_C14, "C01": check_C01, "C02": check_C02, "C03": check_C03, "C04": check_C04, "C07": check_C07, "C08": check_C08,
           "C15": check_C15, "C16": check_C16}
 PROFILES = {"reg": reg_profile}
